@@ -67,7 +67,10 @@ LEVEL_TEXT.update({
                   "directory, every segment size and key type: the outputs equal the ordered map's on the history with the restarts erased, every open succeeds, and "
                   "the invariant Inv (memory, CAS, on-disk snapshot and log) holds at the end; C02_observations_equal: keys, refcounts, unique_blobs, total_bytes "
                   "identical with and without restarts; C02_one_restart from any Inv state (replay skipping versions <= snapshot, next version above everything, "
-                  "after-replay checkpoint, pruning). K2 with close/open and checkpoints at random positions; oracle: state before close == state after open on the real library.",
+                  "after-replay checkpoint, pruning). C02_concurrent_log_replays (proofs/ConcDurable.v): for ANY schedule of the concurrent model, the records its commits appended "
+                  "(version i+1, encoded operation of the i-th write-log entry) are replayed by the sequential recovery loop into exactly the index the threads left in memory "
+                  "(keys, refcounts, statistics, next version). K2 with close/open and checkpoints at random positions; oracle: state before close == state after open on the real library; "
+                  "K6: after every concurrent program (forced and model-free schedules) the handle is dropped and the directory reopened, state before == after.",
              note=BASE_NOTE + "hist_fits: sizes within the on-disk format's fields; both values of pre_create_cas_dirs. stats.index.serialized_size_bytes is specified as the index file's length "
                               "(proved in C02_one_restart), not compared across a reopen that checkpoints."),
  "C10": dict(text="Theorems C10_truncation / C10_any_truncation_yields_a_prefix / C10_payload_change_detected / C10_checksum_change_detected / "
@@ -99,7 +102,8 @@ LEVEL_TEXT.update({
                   "versions lie in (i*N,(i+1)*N], strictly increase through the log, every version above the snapshot's is present, the snapshot decodes, and a "
                   "declarative reader (snapshot, then records above its version) yields exactly the acknowledged key map; C20_restart_keeps_next_version (no reuse "
                   "across restarts). Every-instant part: the harness's independent decoder (written from the format comments) parses index and *.wal at every kill "
-                  "point of the real library and compares with the acknowledged history; the crash invariant theorem is in props/C03.v when claimed.",
+                  "point of the real library and compares with the acknowledged history (and, with no operation in flight, after every operation of every sequential history: "
+                  "snapshot + log = acknowledged history, the highest version on disk never goes down); the crash invariant theorem is in props/C03.v when claimed.",
              note=BASE_NOTE + "The at-every-instant clause is a theorem only through the crash development (C03); until that is claimed it is covered by K4 + the independent decoder."),
 })
 for _p in ["C02", "C10", "C11", "C14", "C19", "C20"]:
@@ -111,7 +115,10 @@ LEVEL_TEXT.update({
                   "for a map obtained by applying acknowledged operations in order and each crashed operation entirely or not at all; C03_crash_any_instant, "
                   "C03_recovery_is_crash_safe, C03_nested_crashes_during_recovery, C03_put_every_prefix, plus C20 / C12 / C06 at every crash point as corollaries of the "
                   "memory-less invariant Rest. K4: the real process is killed before every effective call of every sampled history (LD_PRELOAD shim), the crashed "
-                  "directory equals the model's crash image, and the real reopen is checked by an independent oracle (acked subset, in-flight all-or-nothing, usable).",
+                  "directory equals the model's crash image, and the real reopen is checked by an independent oracle (acked subset, in-flight all-or-nothing, usable). "
+                  "C03_concurrent_kill_any_position(_programs) (proofs/ConcDurable.v): a kill at any position of any schedule of CONCURRENT calls - recovery replays the records logged so far into "
+                  "the key map of that position, every recovered key has its complete blob, every returned write is in the replayed log; K6 takes a crash image of the real directory at every step of "
+                  "the forced schedules (all threads parked) and checks recovery = the index of that instant, no missing or corrupted blob.",
              note=BASE_NOTE + "Process-kill model: completed calls persist, a call is atomic (a write(2) torn by the kill itself is outside it). Both values of pre_create_cas_dirs (a kill inside the 65,536-mkdir loop of the first open included: C03_first_open_crash_safe); sizes within the "
                               "format's fields (ext_fits). Recovery after a crash establishes Inv' (DiskOk with a relaxed seal bound; counterexample to the strict one is proved)."),
  "C08": dict(text="Theorems C08_scan_exact (orphans / missing / corrupted / invalid / staging lists are exactly what directory and index imply, for arbitrary planted files), "
